@@ -339,7 +339,7 @@ func runC04(w *mon.W) {
 	}
 
 	// ---- B: chains
-	total := w.Share(w.Pick(3000, 60000))
+	total := w.Share(w.Pick(8000, 60000))
 	for it := 0; it < total; it++ {
 		n := 1 + r.IntN(w.Pick(5, 7))
 		if it%12 == 5 {
